@@ -30,8 +30,9 @@ LEVEL_TEXT = ("Lean theorems for all stored-record maps, outcome scripts, lifecy
               "the property itself excludes: stale_view_reruns. Sub-handlers: the sub-pass (sub_no_rerun, sub_retry_kwarg, "
               "parent_final_iff_subs_finished, sub_records_covered, sub_writes_only_known) and the pass COMPOSED with the "
               "sub-passes of its parents on one store (`cycle2`: cycle2_refines_cycle, cycle2_closed_purges_children, "
-              "cycle2_child_no_rerun); 'a sub-handler … is never invoked again across intervening events' is false of the code: "
-              "sub_rerun_after_supersede_witness = open finding C02-F1. 'Last-handled state written exactly when closed': the "
+              "cycle2_child_no_rerun, cycle2_keeps_untouched); 'a sub-handler … is never invoked again across intervening events' "
+              "WAS false of the code (finding C02-F1, repaired by /repo 88a8bee: the purge is selective) and is now the regression "
+              "theorem sub_not_rerun_after_supersede_regression. 'Last-handled state written exactly when closed': the "
               "model has the closing decision (`closed`), compared with the code on every pass; the write itself is an oracle "
               "clause. Ties: T (HandlerState booleans, outcome flags, lifecycles), S per pass (invocations, every top-level "
               "record, purged children both ways, closing decision, delays), S per sub-pass, S per whole pass with its sub-passes.")
